@@ -661,6 +661,14 @@ class EQLTranslator:
         """
         is_negated = operator_name == "not_contains"
 
+        for operand in (query.left, query.right):
+            if isinstance(operand, Attribute) and self._is_collection_relationship(
+                operand
+            ):
+                raise UnsupportedQueryTypeError(
+                    f"Membership in the collection relationship {operand._name_} cannot be translated."
+                )
+
         if (
             operator_name in ("contains", "in_")
             and isinstance(query.left, Literal)
@@ -682,6 +690,25 @@ class EQLTranslator:
 
         mapper = OperatorMapper()
         return mapper.map_contains_operator(query.operation, left, right)
+
+    def _is_collection_relationship(self, query: Attribute) -> bool:
+        """
+        :param query: The attribute query
+        :return: True if the attribute chain ends in a relationship that holds a collection of rows.
+        """
+        base_class = self._extract_base_class(query)
+        current_dao = get_dao_class(base_class) if base_class is not None else None
+        if current_dao is None:
+            return False
+        rel_resolver = RelationshipResolver()
+        relationship = None
+        for name in self._collect_attribute_chain(query):
+            mapper = sqlalchemy.inspection.inspect(current_dao)
+            relationship = rel_resolver._find_relationship(mapper, name)
+            if relationship is None:
+                return False
+            current_dao = relationship.entity.class_
+        return relationship is not None and bool(relationship.uselist)
 
     def translate_attribute(self, query: Attribute) -> Any:
         """
